@@ -27,7 +27,11 @@ def load_claims():
     m = importlib.util.module_from_spec(spec)
     m.claim = claim
     m.NOT_APPLICABLE = {}
+    m.ADDENDA = {}
     spec.loader.exec_module(m)
+    for pid, extra in m.ADDENDA.items():
+        if pid in CLAIMS:
+            CLAIMS[pid]["text"] = CLAIMS[pid]["text"].rstrip() + " " + extra
     return m.NOT_APPLICABLE
 
 
